@@ -130,6 +130,16 @@ MUTANTS = [
      "        if self.tree is None or other.tree is None:\n            return np.zeros(len(ang_limits))\n", ""),
     ("c10-binning-file-closed-flipped", ["C07"], "catalog/trees.py",
      "                closed_left = binning.closed == Closed.left", "                closed_left = binning.closed == Closed.left or len(binning) == 1"),
+    # ---- C08
+    ("c08-marker-not-removed-first", ["C08"], "catalog/trees.py",
+     "            new.binning_file.unlink(missing_ok=True)\n", ""),
+    ("c08-empty-id-list-accepted", ["C08"], "catalog/catalog.py",
+     "    if len(patch_ids) == 0:  # e.g. catalog creation interrupted while writing", "    if False:"),
+    ("c08-results-not-removed-first", ["C08"], "correlation/corrdata.py",
+     "                path_prefix.with_suffix(suffix).unlink(missing_ok=True)", "                pass"),
+    ("c08-overwrite-keeps-id-list", ["C08"], "catalog/catalog.py",
+     "            rmtree(self.cache_directory)\n\n        self.buffersize = buffersize\n        self.cache_directory.mkdir()",
+     "            [rmtree(p) for p in self.cache_directory.iterdir() if p.is_dir()]\n\n        self.buffersize = buffersize\n        self.cache_directory.mkdir(exist_ok=True)"),
     # ---- C09
     ("c09-finite-check-removed", ["C09"], "datachunk.py",
      "asarray_func = np.asarray_chkfinite if chkfinite else np.asarray", "asarray_func = np.asarray"),
